@@ -208,7 +208,7 @@ MUTATIONS += [
     dict(id="r4b-sum-permute", file=TINNER, old="        x = x.permute(0, 2, 1, 3).flatten(start_dim=2)\n        weight = self.weight()\n        return self.semiring.einsum(\n            \"fbi,foi->fbo\"", new="        x = x.permute(2, 0, 1, 3).flatten(start_dim=2)\n        weight = self.weight()\n        return self.semiring.einsum(\n            \"fbi,foi->fbo\"", expect={"C01": ["R4b:cirkit.backend.torch.layers.inner.TorchSumLayer:forward"]}, allow_others=True),
     dict(id="r4b-sum-einsum-letters", file=TINNER, old="            \"fbi,foi->fbo\", inputs=(x,), operands=(weight,), dim=-1, keepdim=True\n        )  # shape (F, B, K_o).\n\n    def sample", new="            \"fbi,fio->fbo\", inputs=(x,), operands=(weight,), dim=-1, keepdim=True\n        )  # shape (F, B, K_o).\n\n    def sample", expect={"C01": ["R4b:cirkit.backend.torch.layers.inner.TorchSumLayer:forward"]}, allow_others=True),
     dict(id="r4b-gaussian-unsqueeze", file=TINPUT, old="        mean = self.mean().unsqueeze(dim=1)  # (F, 1, K)", new="        mean = self.mean().unsqueeze(dim=2)  # (F, 1, K)", expect={"C01": ["R4b:cirkit.backend.torch.layers.input.TorchGaussianLayer:"]}, allow_others=True),
-    dict(id="r4b-constant-expand", file=TINPUT, old="        value = value.unsqueeze(dim=1).expand(value.shape[0], batch_size, value.shape[1])", new="        value = value.unsqueeze(dim=0).expand(value.shape[0], batch_size, value.shape[1])", expect={"C01": ["R4b:cirkit.backend.torch.layers.input.TorchConstantValueLayer:forward"]}),
+    dict(id="r4b-constant-expand", file=TINPUT, old="        value = value.unsqueeze(dim=1).expand(value.shape[0], batch_size, value.shape[1])", new="        value = value.unsqueeze(dim=0).expand(value.shape[0], batch_size, value.shape[1])", expect={"C06": ["R4b:"], "C01": ["R4b:cirkit.backend.torch.layers.input.TorchConstantValueLayer:forward"]}),
     dict(id="r4b-tucker-view", file=TOPT, old="            -1,\n            self.num_output_units,\n            *(self.num_input_units for _ in range(self.arity)),", new="            -1,\n            self.num_input_units,\n            *(self.num_input_units for _ in range(self.arity)),", expect={"C01": ["R4b:cirkit.backend.torch.layers.optimized.TorchTuckerLayer:forward"]}, allow_others=True),
     dict(id="r4b-tensordot-permute", file=TOPT, old="        x = x.permute(0, 1, 3, 2)", new="        x = x.permute(0, 1, 2, 3)", expect={"C01": ["R4b:cirkit.backend.torch.layers.optimized.TorchTensorDotLayer:forward"]}, allow_others=True),
     # R4c / R4q: marginal queries
@@ -236,7 +236,7 @@ MUTATIONS += [
     dict(id="r10-ptensor-plain", file=TNODES, old="            self._ptensor = nn.Parameter(\n", new="            self._ptensor = torch.as_tensor(\n", expect={"C19": ["R10c:cirkit.backend.torch.parameters.nodes.TorchTensorParameter:store"]}, allow_others=True),
     # R8 matchers / R3g / R1d sweep
     dict(id="r8-matcher-fanin", file=COMP, old="        in_nodes = incomings_fn(layer)\n        if len(in_nodes) > 1 and lid != num_entries - 1:\n            return None", new="        in_nodes = incomings_fn(layer)\n        if len(in_nodes) > 2 and lid != num_entries - 1:\n            return None", expect={"C02": ["R8:cirkit.backend.torch.compiler._match_layer_pattern:fan-in"], "C01": ["R8:cirkit.backend.torch.compiler._match_layer_pattern:fan-in"]}),
-    dict(id="r3g-stacked-range", file=FOLD, old="    if [i for idx in cum_fold_idx for i in idx] == list(range(fold_size)):", new="    if [i for idx in cum_fold_idx for i in idx] == list(range(len(cum_fold_idx) * len(cum_fold_idx[0]))):", expect={"C02": ["R3g:cirkit.backend.torch.graph.folding.build_address_book_stacked_entry"]}),
+    dict(id="r3g-stacked-range", file=FOLD, old="    if [i for idx in cum_fold_idx for i in idx] == list(range(fold_size)):", new="    if [i for idx in cum_fold_idx for i in idx] == list(range(len(cum_fold_idx) * len(cum_fold_idx[0]))):", expect={"C01": ["R3g:"], "C02": ["R3g:cirkit.backend.torch.graph.folding.build_address_book_stacked_entry"]}),
     dict(id="r1d-candecomp-semiring", file=OLAY, old="        weight=dense.weight,\n        semiring=compiler.semiring,\n    )\n    return (cpt,)", new="        weight=dense.weight,\n    )\n    return (cpt,)", expect={"C02": ["R1d:cirkit.backend.torch.optimization.layers.apply_candecomp"], "C01": ["R1d:cirkit.backend.torch.optimization.layers.apply_candecomp"]}),
     # R7i / R7p / R7d
     dict(id="r7i-evidence-reversed", file=FUN, old="        in_blocks[evi_block] = [layers_to_block[isl] for isl in sc.layer_inputs(sl)]", new="        in_blocks[evi_block] = list(reversed([layers_to_block[isl] for isl in sc.layer_inputs(sl)]))", expect={"C06": ["R7i:cirkit.symbolic.functional.evidence"]}, allow_others=True),
@@ -294,7 +294,7 @@ MUTATIONS += [
     dict(id="r12b-tensordot-weights-swapped", file=OLAY, old="    weight1 = weight.subgraph(in_kronecker1)\n    weight2 = weight.subgraph(in_kronecker2)", new="    weight1 = weight.subgraph(in_kronecker2)\n    weight2 = weight.subgraph(in_kronecker1)", expect={"C02": ["R12b:cirkit.backend.torch.optimization.layers.apply_dense_tensordot"]}),
     dict(id="r12b-tensordot-view-order", file=TOPT, old="        x = x.view(x.shape[0], x.shape[1], self._num_contract_units, self._num_batch_units)", new="        x = x.view(x.shape[0], x.shape[1], self._num_batch_units, self._num_contract_units).transpose(2, 3)", expect={"C02": ["R12b:cirkit.backend.torch.optimization.layers.apply_dense_tensordot"]}, allow_others=True),
     dict(id="r11e-complex-plain-log", patch="seeded/C13b/patch.diff", expect={"C13": ["R11e:"]}),
-    dict(id="c13-requires-grad-key", patch="seeded/C13a/patch.diff", expect={"C13": ["R3d:"], "C17": ["R3d:"], "C02": ["R3d:"]}),
+    dict(id="c13-requires-grad-key", patch="seeded/C13a/patch.diff", expect={"C06": ["R3d:"], "C13": ["R3d:"], "C17": ["R3d:"], "C02": ["R3d:"]}),
     dict(id="r4i-dirichlet-transpose", file="cirkit/backend/torch/initializers.py", old="    tensor.copy_(torch.movedim(samples, -1, dim))", new="    tensor.copy_(torch.transpose(samples, dim, -1))", expect={"C17": ["R4i:cirkit.backend.torch.initializers.dirichlet_:dirichlet[rank=4,dim=1]"]}),
     dict(id="r4i-dirichlet-wrong-dim", file="cirkit/backend/torch/initializers.py", old="    tensor.copy_(torch.movedim(samples, -1, dim))", new="    tensor.copy_(torch.movedim(samples, -1, dim - 1))", expect={"C17": ["R4i:cirkit.backend.torch.initializers.dirichlet_"]}),
     dict(id="q-dirichlet-permute", file="cirkit/backend/torch/initializers.py", old="    tensor.copy_(torch.movedim(samples, -1, dim))", new="    order = list(range(len(shape) - 1))\n    order.insert(dim, len(shape) - 1)\n    tensor.copy_(samples.permute(order))", expect={}, quiet=True),
@@ -303,4 +303,30 @@ MUTATIONS += [
     dict(id="r6p-pointer-forwards-reset", file=TNODES, old="    def deref(self) -> TorchTensorParameter:\n        return self._parameter\n", new="    def deref(self) -> TorchTensorParameter:\n        return self._parameter\n\n    def reset_parameters(self) -> None:\n        self._parameter.reset_parameters()\n", expect={"C10": ["R6p:cirkit.backend.torch.parameters.nodes.TorchPointerParameter.reset_parameters"], "C19": ["R6p:cirkit.backend.torch.parameters.nodes.TorchPointerParameter.reset_parameters"]}),
     dict(id="r6p-reference-compiles-to-tensor", file=RPAR, old="    return TorchPointerParameter(compiled_p, fold_idx=fold_idx)", new="    if fold_idx is None or compiled_p.num_folds == 1:\n        return compiled_p\n    return TorchPointerParameter(compiled_p, fold_idx=fold_idx)", expect={"C10": ["R6p:cirkit.backend.torch.rules.parameters.compile_reference_parameter"], "C19": ["R6p:cirkit.backend.torch.rules.parameters.compile_reference_parameter"]}, allow_others=True),
     dict(id="q-r6p-pointer-kwarg-checked", quiet=True, file=COMP, old="        return TorchPointerParameter(in_folded_node, fold_idx=in_fold_idx)", new="        assert isinstance(in_folded_node, TorchTensorParameter) and in_folded_node.num_folds >= len(group)\n        ptr = TorchPointerParameter(parameter=in_folded_node, fold_idx=in_fold_idx)\n        return ptr", expect={}),
+    # ---- R3g (b)/(c): the no-op shortcuts compare the index in order, element by element
+    dict(id="r3g-stacked-sorted", file="cirkit/backend/torch/graph/folding.py", old="    if [i for idx in cum_fold_idx for i in idx] == list(range(fold_size)):", new="    if sorted(i for idx in cum_fold_idx for i in idx) == list(range(fold_size)):", expect={"C02": ["R3g:cirkit.backend.torch.graph.folding.build_address_book_stacked_entry:in-order"], "C01": ["R3g:"]}),
+    dict(id="r3g-stacked-lengths-only", file="cirkit/backend/torch/graph/folding.py", old="    if [i for idx in cum_fold_idx for i in idx] == list(range(fold_size)):", new="    if sum(len(idx) for idx in cum_fold_idx) == fold_size:", expect={"C02": ["R3g:cirkit.backend.torch.graph.folding.build_address_book_stacked_entry:guarded"], "C01": ["R3g:"]}),
+    dict(id="q-r3g-stacked-split-forms", quiet=True, file="cirkit/backend/torch/graph/folding.py", old="""    if [i for idx in cum_fold_idx for i in idx] == list(range(fold_size)):
+        if len(cum_fold_idx) == 1 and len(cum_fold_idx[0]) == fold_size:
+            # Equivalent to .unsqueeze(dim=0)
+            return AddressBookEntry(module, [in_module_ids], [(None,)])
+        if len(cum_fold_idx) == fold_size and len(cum_fold_idx[0]) == 1:
+            # Equivalent to .unsqueeze(dim=1)
+            return AddressBookEntry(module, [in_module_ids], [(slice(None), None)])
+""", new="""    if len(cum_fold_idx) == 1 and cum_fold_idx[0] == list(range(fold_size)):
+        # Equivalent to .unsqueeze(dim=0)
+        return AddressBookEntry(module, [in_module_ids], [(None,)])
+    if cum_fold_idx == [[i] for i in range(fold_size)]:
+        # Equivalent to .unsqueeze(dim=1)
+        return AddressBookEntry(module, [in_module_ids], [(slice(None), None)])
+""", expect={}),
+    # ---- R4x: fold / batch axes keep their identity; R6s: per-instance state
+    dict(id="r4x-evidence-repeat-view", file="cirkit/backend/torch/layers/input.py", old="        return x.expand(x.shape[0], batch_size, x.shape[2])", new="        return x.repeat(batch_size, 1, 1).view(-1, batch_size, x.shape[2])", expect={"C06": ["R4x:cirkit.backend.torch.layers.input.TorchEvidenceLayer"], "C01": ["R4x:cirkit.backend.torch.layers.input.TorchEvidenceLayer"]}),
+    dict(id="q-r4x-evidence-repeat-batch-axis", quiet=True, file="cirkit/backend/torch/layers/input.py", old="        return x.expand(x.shape[0], batch_size, x.shape[2])", new="        return x.repeat(1, batch_size, 1)", expect={}),
+    dict(id="q-r4x-evidence-repeat-then-transpose", quiet=True, file="cirkit/backend/torch/layers/input.py", old="        return x.expand(x.shape[0], batch_size, x.shape[2])", new="        return x.repeat(batch_size, 1, 1).view(batch_size, -1, x.shape[2]).transpose(0, 1)", expect={}),
+    dict(id="r6s-compiler-state-class-level", edits=[(COMP, "        self._compiled_parameters: dict[TensorParameter, tuple[TorchTensorParameter, int]] = {}\n", "        pass\n"), (COMP, "class TorchCompilerState:\n", "class TorchCompilerState:\n    _compiled_parameters: dict[TensorParameter, tuple[TorchTensorParameter, int]] = {}\n\n")], expect={"C10": ["R6s:cirkit.backend.torch.compiler.TorchCompilerState"]}),
+    dict(id="q-r6s-class-default-rebound", quiet=True, edits=[(COMP, "class TorchCompilerState:\n", "class TorchCompilerState:\n    _compiled_parameters: dict[TensorParameter, tuple[TorchTensorParameter, int]] = {}\n\n")], expect={}),
+    # ---- R2e const-guard
+    dict(id="r2e-const-guard-softmax-kind", patch="seeded/C03b/patch.diff", expect={"C03": ["R2e:cirkit.symbolic.operators.integrate_categorical_layer:const-guard"]}),
+    dict(id="q-r2e-const-guard-axis-checked", quiet=True, edits=[(OPS, "    LogParameter,\n    OuterProductParameter,", "    LogParameter,\n    LogSoftmaxParameter,\n    OuterProductParameter,"), (OPS, "    if sl.logits is None:\n        log_partition = Parameter.from_input(ConstantParameter(sl.num_output_units, value=0.0))\n    else:\n        reduce_lse", "    if sl.logits is None or (\n        isinstance(sl.logits.output, LogSoftmaxParameter) and sl.logits.output.axis in (1, -1)\n    ):\n        log_partition = Parameter.from_input(ConstantParameter(sl.num_output_units, value=0.0))\n    else:\n        reduce_lse")], expect={}),
 ]
